@@ -17,7 +17,9 @@ RULE = ("component alphabet includes '-', '_', '.', digits, upper/lower-case pai
         "In about half of the cases a random non-empty subset of the appenders returns Err after recording "
         "the call (fault injection: deliveries must be unaffected). In about a fifth of the cases one appender, while "
         "handling each record, logs one of the probes as a record of its own through the same Logger (re-entrant "
-        "log call from inside an appender): the follow-up must be routed like any record. "
+        "log call from inside an appender): the follow-up must be routed like any record. In about a sixth of the "
+        "cases some appenders are supplied as log::Log values (log4rs' blanket Append impl) whose own enabled() "
+        "refuses every record: attachment and routing alone decide what they receive. "
         "non-trivial = config with >= 1 logger and a probe whose effective logger is not the root; "
         "distinct = distinct case line")
 ASSUMPTIONS = ["configs are built through Config::builder().build (valid: unique names accepted by "
@@ -92,6 +94,13 @@ def mk_case(apps, root, loggers, rng, extra=()):
         # it carries message "k", which the appender does not follow up, so the recursion depth is 1
         if cand:
             case.append([rng.below(len(apps)), rng.choice(cand)])
+    if apps and rng.chance(1, 6):
+        # some appenders are supplied as log::Log values (blanket impl) whose own enabled() says no
+        if len(case) == 5:
+            case.append([])
+        nest_app = case[5][0] if case[5] else None
+        lk = [i for i in range(len(apps)) if rng.chance(1, 2) and i != nest_app and i not in failing]
+        case.append(lk)
     return case
 
 
@@ -202,7 +211,7 @@ def model_lines(ctx, cases, lines, impl_lines):
 
 
 def compare(c, impl, model):
-    if len(c) > 5 and isinstance(impl, list) and len(impl) == len(c[3]) + 1 and isinstance(model, list) \
+    if len(c) > 5 and c[5] and isinstance(impl, list) and len(impl) == len(c[3]) + 1 and isinstance(model, list) \
             and len(model) == len(c[3]):
         app, pi = c[5]
         nested = impl[-1]
